@@ -87,6 +87,8 @@ CHECKS = {
             dict(name="subscribe", run="TestC12Subscribe", checks=dict(quick=4000, thorough=20000), shards=dict(quick=1, thorough=8)),
             dict(name="client", run="TestC12Client", checks=dict(quick=8000, thorough=40000), shards=dict(quick=1, thorough=8)),
             dict(name="life", run="TestC12Life", checks=dict(quick=150, thorough=2000), shards=dict(quick=4, thorough=8)),
+            # one request served thousands of times at once on the real scheduler: panics that need two goroutines of the handler to meet
+            dict(name="storm", run="TestC12Storm", checks=dict(quick=150, thorough=1500), shards=dict(quick=4, thorough=8)),
             dict(name="fuzz-notification", run="FuzzC12Notification", rapid=False, tiers=("thorough",), fuzz=dict(target="FuzzC12Notification", time=dict(thorough="60s")), timeout=dict(thorough=400)),
             dict(name="fuzz-subscribe-request", run="FuzzC12SubscribeRequest", rapid=False, tiers=("thorough",), fuzz=dict(target="FuzzC12SubscribeRequest", time=dict(thorough="45s")), timeout=dict(thorough=400)),
             dict(name="fuzz-subscribe-response", run="FuzzC12SubscribeResponse", rapid=False, tiers=("thorough",), fuzz=dict(target="FuzzC12SubscribeResponse", time=dict(thorough="60s")), timeout=dict(thorough=400)),
